@@ -23,9 +23,38 @@ pub uninterp spec fn md5_spec(input: Seq<u8>) -> Seq<u8>;
 // units/rc4, shared through this include together with its proved lemmas (`lemma_rc4_commutes`, `lemma_rc4_involution`, ..).
 // It is `#[verifier::opaque]`: the obligations below use it as a fixed function of (key, data) only.
 //@@ INCLUDE rc4/rc4_spec.rs
-/// AES-128 / AES-256 in CBC mode with PKCS#5/#7 padding removed; None = not a whole number of blocks or bad padding.
-pub uninterp spec fn aes128_cbc_pkcs7(key: Seq<u8>, iv: Seq<u8>, ct: Seq<u8>) -> Option<Seq<u8>>;
-pub uninterp spec fn aes256_cbc_pkcs7(key: Seq<u8>, iv: Seq<u8>, ct: Seq<u8>) -> Option<Seq<u8>>;
+/// AES-128 / AES-256 in CBC mode, the raw block decryption (no padding removed); None iff the data is not a whole number of
+/// blocks. Uninterpreted (the `aes` / `cbc` crates). `aes256_cbc_nopad` is declared with the login spec below.
+pub uninterp spec fn aes128_cbc_nopad(key: Seq<u8>, iv: Seq<u8>, ct: Seq<u8>) -> Option<Seq<u8>>;
+
+// ---- the padding of ISO 32000-1 7.6.2 / ISO 32000-2 7.6.3.1 ("RFC 2898 / PKCS #5 padding": RFC 5652 6.3) -- DEFINED, not uninterpreted:
+// "pad the data ... to a multiple of 16 bytes ... with n bytes of value n, 1 <= n <= 16: a message whose length is already a
+// multiple of 16 gets a whole block of sixteen 0x10". Removing it: the last byte n says how many bytes go.
+pub open spec fn pkcs7_n(p: Seq<u8>) -> int { if p.len() == 0 { 0 } else { p[p.len() - 1] as int } }
+/// the pad length is one the padding rule can produce and fits the message
+pub open spec fn pkcs7_len_ok(p: Seq<u8>) -> bool { 1 <= pkcs7_n(p) <= 16 && pkcs7_n(p) <= p.len() }
+/// all n pad bytes have the value n
+pub open spec fn pkcs7_valid(p: Seq<u8>) -> bool {
+    pkcs7_len_ok(p) && forall|i: int| p.len() - pkcs7_n(p) <= i < p.len() ==> p[i] == pkcs7_n(p)
+}
+/// `strict`: a well-formed pad (what an encryptor that follows 7.6.2 produces) is removed, everything else is a failure.
+/// `!strict` (TOL_PAD_BYTES_UNCHECKED): only the LAST byte is looked at, the other pad bytes are not compared.
+/// The two agree on every message a conforming encryptor can produce (`lemma_pkcs7_modes_agree_on_valid`).
+pub open spec fn pkcs7_unpad(p: Seq<u8>, strict: bool) -> Option<Seq<u8>> {
+    if pkcs7_valid(p) || (!strict && pkcs7_len_ok(p)) { Some(p.subrange(0, p.len() - pkcs7_n(p))) } else { None }
+}
+pub proof fn lemma_pkcs7_modes_agree_on_valid(p: Seq<u8>)
+    ensures pkcs7_valid(p) ==> pkcs7_unpad(p, true) == pkcs7_unpad(p, false),
+            !pkcs7_len_ok(p) ==> pkcs7_unpad(p, true) is None && pkcs7_unpad(p, false) is None,
+{}
+pub open spec fn unpad_opt(o: Option<Seq<u8>>, strict: bool) -> Option<Seq<u8>> {
+    match o { Some(p) => pkcs7_unpad(p, strict), None => None }
+}
+/// AES-CBC with the padding removed = raw CBC decryption, then `pkcs7_unpad`; None = not a whole number of blocks or bad padding.
+pub open spec fn aes128_cbc_unpad(key: Seq<u8>, iv: Seq<u8>, ct: Seq<u8>, strict: bool) -> Option<Seq<u8>> { unpad_opt(aes128_cbc_nopad(key, iv, ct), strict) }
+pub open spec fn aes256_cbc_unpad(key: Seq<u8>, iv: Seq<u8>, ct: Seq<u8>, strict: bool) -> Option<Seq<u8>> { unpad_opt(aes256_cbc_nopad(key, iv, ct), strict) }
+pub open spec fn aes128_cbc_pkcs7(key: Seq<u8>, iv: Seq<u8>, ct: Seq<u8>) -> Option<Seq<u8>> { aes128_cbc_unpad(key, iv, ct, true) }
+pub open spec fn aes256_cbc_pkcs7(key: Seq<u8>, iv: Seq<u8>, ct: Seq<u8>) -> Option<Seq<u8>> { aes256_cbc_unpad(key, iv, ct, true) }
 
 // ---- spec, written from ISO 32000-1 7.6.2 "Algorithm 1" and ISO 32000-2 "Algorithm 1.A" ----
 pub open spec fn pow256(i: int) -> int decreases i { if i <= 0 { 1 } else { 256 * pow256(i - 1) } }
@@ -61,6 +90,11 @@ pub open spec fn delivers(r: Result<&[u8]>, o: Option<Seq<u8>>) -> bool {
         None => r matches Err(e) && is_decryption_failure(e),
     }
 }
+/// ... `strict`, or -- on data whose pad bytes are not all equal, which no conforming encryptor produces -- `lenient`
+/// (TOL_PAD_BYTES_UNCHECKED: C06 speaks of documents "protected by the standard security handler", i.e. conforming ciphertext)
+pub open spec fn delivers_either(r: Result<&[u8]>, strict: Option<Seq<u8>>, lenient: Option<Seq<u8>>) -> bool {
+    delivers(r, strict) || (TOL_PAD_BYTES_UNCHECKED() && delivers(r, lenient))
+}
 
 impl Decoder {
     /// C06 statement: "the strings of the encryption dictionary itself (and the metadata stream when metadata
@@ -77,17 +111,19 @@ impl Decoder {
         (self.key@.len() >= 16 || self.key@.len() >= self.key_size) && !(self.method is None)
     }
     /// Algorithm 1 (RC4 / AESV2) and Algorithm 1.A (AESV3) for data that is not exempt and not empty
-    pub open spec fn iso_decrypt(&self, id: PlainRef, data: Seq<u8>) -> Option<Seq<u8>> {
+    pub open spec fn iso_decrypt(&self, id: PlainRef, data: Seq<u8>) -> Option<Seq<u8>> { self.iso_decrypt_pad(id, data, true) }
+    /// `strict`: see `pkcs7_unpad`
+    pub open spec fn iso_decrypt_pad(&self, id: PlainRef, data: Seq<u8>, strict: bool) -> Option<Seq<u8>> {
         match self.method {
             CryptMethod::V2 => Some(rc4(alg1_object_key(self.file_key(), id, false), data)),
             CryptMethod::AESV2 =>
                 if data.len() < 16 || self.key_size + 5 < 16 { None }
-                else { aes128_cbc_pkcs7(alg1_object_key(self.file_key(), id, true), iv_of(data), ct_of(data)) },
+                else { aes128_cbc_unpad(alg1_object_key(self.file_key(), id, true), iv_of(data), ct_of(data), strict) },
             // Algorithm 1.A: "Use the 32-byte file encryption key for the AES-256 symmetric key algorithm" --
             // no per-object hashing; the IV is the first 16 bytes of the data
             CryptMethod::AESV3 =>
                 if data.len() < 16 || self.key@.len() != 32 { None }
-                else { aes256_cbc_pkcs7(self.key@, iv_of(data), ct_of(data)) },
+                else { aes256_cbc_unpad(self.key@, iv_of(data), ct_of(data), strict) },
             CryptMethod::None => None,
         }
     }
@@ -211,7 +247,38 @@ impl Aes256CbcDec {
             Some(p) => r matches Ok(d) && d@ == p,
             None => r matches Err(e) && e is DecryptionFailure }
     { unimplemented!() }
+    /// `cipher.decrypt_padded_mut::<NoPadding>(buf).map_err(|_| PdfError::DecryptionFailure)` (block_padding::NoPadding: the whole
+    /// buffer is handed back; UnpadError iff it is not a whole number of blocks)
+    #[verifier::external_body]
+    fn decrypt_padded_mut_nopad<'a>(self, buf: &'a mut [u8]) -> (r: Result<&'a [u8]>)
+        ensures match aes256_cbc_nopad(self.key(), self.iv(), old(buf)@) {
+            Some(p) => r matches Ok(d) && d@ == p && p.len() == old(buf)@.len(),
+            None => r matches Err(e) && e is DecryptionFailure }
+    { unimplemented!() }
 }
+impl Aes128CbcDec {
+    #[verifier::external_body]
+    fn decrypt_padded_mut_nopad<'a>(self, buf: &'a mut [u8]) -> (r: Result<&'a [u8]>)
+        ensures match aes128_cbc_nopad(self.key(), self.iv(), old(buf)@) {
+            Some(p) => r matches Ok(d) && d@ == p && p.len() == old(buf)@.len(),
+            None => r matches Err(e) && e is DecryptionFailure }
+    { unimplemented!() }
+}
+// R7 helpers for a padding-removal helper of crypt.rs (optional item `pkcs7 helper`)
+/// `(lo..hi).contains(x)`
+#[verifier::external_body]
+fn hoist_range_contains_usize(lo: usize, hi: usize, x: &usize) -> (r: bool) ensures r == (lo <= *x < hi) { (lo..hi).contains(x) }
+/// `(lo..=hi).contains(x)`
+#[verifier::external_body]
+fn hoist_range_incl_contains_usize(lo: usize, hi: usize, x: &usize) -> (r: bool) ensures r == (lo <= *x <= hi) { (lo..=hi).contains(x) }
+/// `s.last()`
+#[verifier::external_body]
+fn hoist_last(s: &[u8]) -> (r: Option<&u8>)
+    ensures s@.len() == 0 ==> r is None, s@.len() > 0 ==> (r matches Some(b) && *b == s@[s@.len() - 1])
+{ s.last() }
+/// `&s[..n]`
+#[verifier::external_body]
+fn hoist_prefix(s: &[u8], n: usize) -> (r: &[u8]) requires n <= s@.len() ensures r@ == s@.subrange(0, n as int) { &s[..n] }
 /// `Aes128CbcDec::new_from_slices(key, iv).map_err(|_| PdfError::DecryptionFailure)`
 /// (cipher::KeyIvInit: InvalidLength iff the key is not 16 bytes or the iv is not one block)
 #[verifier::external_body]
@@ -569,5 +636,7 @@ impl Decoder {
 //@@ Decoder::key
 //@@ Decoder::decrypt
 }
+// a free padding-removal helper of crypt.rs, if this tree has one (`fn NAME(x: &[u8]) -> Result<&[u8]>`): see unit.py
+//@@ pkcs7 helper
 }
 fn main(){}
